@@ -2,6 +2,7 @@ package props
 
 import (
 	"go/token"
+	"go/types"
 	"strings"
 
 	"golang.org/x/tools/go/ssa"
@@ -277,50 +278,7 @@ func c10() []*Ob {
 					}
 				}
 				if fn := c.Fn("proxy/bulk.extractDocTime"); fn != nil {
-					isGlobalRange := func(name string) bool {
-						for _, b := range fn.Blocks {
-							for _, in := range b.Instrs {
-								if u, ok := in.(*ssa.UnOp); ok {
-									if g, ok := u.X.(*ssa.Global); ok && g.Name() == name {
-										return true
-									}
-								}
-							}
-						}
-						return false
-					}
-					if isGlobalRange("TimeFields") && isGlobalRange("TimeFormats") {
-						c.Site(fn.Pos(), "extractDocTime reads consts.TimeFields and consts.TimeFormats")
-					} else {
-						c.Violation("prov:extractDocTime:tables", fn.Pos(), "extractDocTime no longer iterates consts.TimeFields x consts.TimeFormats")
-					}
-					// every return inside a loop is a successful parse; depth-2 loop nest exists
-					depth2 := false
-					for _, b := range fn.Blocks {
-						if loopDepth(b) >= 2 {
-							depth2 = true
-						}
-					}
-					if depth2 {
-						c.Site(fn.Pos(), "fields x formats is a nested loop")
-					} else {
-						c.Violation("order:extractDocTime:nested", fn.Pos(), "extractDocTime no longer tries every format for every time field in a nested loop: a present but unparseable field ends the search and the receive time is used although a later field holds a valid time")
-					}
-					for _, b := range fn.Blocks {
-						ret, ok := b.Instrs[len(b.Instrs)-1].(*ssa.Return)
-						if !ok {
-							continue
-						}
-						second := RetOperand(ret, 1)
-						if IsNilConst(second) {
-							// fallback return: first result derives from requestTime, and it is outside the loops
-							if p, isP := RetOperand(ret, 0).(*ssa.Parameter); isP && p.Name() == "requestTime" && loopDepth(b) == 0 {
-								c.Site(ret.Pos(), "falls back to the request time after all fields and formats were tried")
-							} else if loopDepth(b) > 0 {
-								c.Violation("order:extractDocTime:early-fallback", ret.Pos(), "extractDocTime gives up inside the loops")
-							}
-						}
-					}
+					checkTimeSearch(c, fn)
 				}
 			}},
 		{Prop: "C10", ID: "C10.5", Engine: "ORDER+DOM", Floor: 3,
@@ -411,4 +369,166 @@ func incOnEveryIteration(app, inc *ssa.BasicBlock) bool {
 		}
 	}
 	return found
+}
+
+// checkTimeSearch decides the search shape of extractDocTime wherever its two
+// loops live (in the function itself or in helpers it calls):
+//   - the loop over consts.TimeFields contains the parse attempts (directly or
+//     through a helper), so a later field is tried when an earlier one does not parse;
+//   - the loop over consts.TimeFormats contains a parse attempt and is nested in
+//     (or called from) the fields loop;
+//   - neither loop can be left early on a path that still ends in the fallback
+//     answer (a nil/false result): leaving early is only for a successful parse.
+func checkTimeSearch(c *Ctx, fn *ssa.Function) {
+	loadsGlobal := func(name string) Sel {
+		return func(in ssa.Instruction) bool {
+			u, ok := in.(*ssa.UnOp)
+			if !ok {
+				return false
+			}
+			g, ok := u.X.(*ssa.Global)
+			return ok && g.Name() == name
+		}
+	}
+	parse := c.P.MayCall(Or(Callee("time.Parse"), Callee("proxy/bulk.parseESTime")))
+	F := c.P.Locate(fn, loadsGlobal("TimeFields"))
+	G := c.P.Locate(fn, loadsGlobal("TimeFormats"))
+	if F == nil || G == nil {
+		c.Violation("prov:extractDocTime:tables", fn.Pos(), "extractDocTime (and its helpers) no longer iterates consts.TimeFields x consts.TimeFormats")
+		return
+	}
+	lf := RangeLoopOfGlobal(F, "TimeFields")
+	lg := RangeLoopOfGlobal(G, "TimeFormats")
+	if lf == nil || lg == nil {
+		c.Undecided("extractDocTime:loops", fn.Pos(), "cannot find the range loops over consts.TimeFields / consts.TimeFormats")
+		return
+	}
+	c.Site(lf.Header.Instrs[0].Pos(), "loop over consts.TimeFields in %s", FuncName(F))
+	inLoop := func(l *Loop, f *ssa.Function, m Matcher) []ssa.CallInstruction {
+		var out []ssa.CallInstruction
+		for _, call := range CallsIn(f, m) {
+			if l.Blocks[call.Block()] {
+				out = append(out, call)
+			}
+		}
+		return out
+	}
+	// parse attempts inside the fields loop
+	if len(inLoop(lf, F, parse)) == 0 {
+		c.Violation("order:extractDocTime:nested", F.Pos(), "no parse attempt inside the loop over consts.TimeFields (%s): the search stops at the first present field and the receive time is used although a later field holds a valid time", FuncName(F))
+	} else {
+		c.Site(F.Pos(), "every time field is parsed inside the fields loop")
+	}
+	// the formats loop parses, and sits inside the fields loop
+	if len(inLoop(lg, G, parse)) == 0 {
+		c.Violation("order:extractDocTime:formats", G.Pos(), "no parse attempt inside the loop over consts.TimeFormats (%s)", FuncName(G))
+	}
+	nested := false
+	if F == G {
+		nested = lf != lg && lf.Contains(lg)
+	} else {
+		reachG := func(call ssa.CallInstruction) bool {
+			cal := StaticCallee(call)
+			return cal != nil && c.P.Locate(cal, loadsGlobal("TimeFormats")) == G
+		}
+		nested = len(inLoop(lf, F, reachG)) > 0
+	}
+	if nested {
+		c.Site(lg.Header.Instrs[0].Pos(), "fields x formats is a nested search")
+	} else {
+		c.Violation("order:extractDocTime:nested", F.Pos(), "the loop over consts.TimeFormats is not inside the loop over consts.TimeFields: not every format is tried for every time field")
+	}
+	// early exits only for success
+	fallback := func(r *ssa.Return) bool {
+		for i := range r.Results {
+			v := RetOperand(r, i)
+			if IsNilConst(v) {
+				return true
+			}
+			if b, ok := ConstBool(v); ok && !b {
+				return true
+			}
+		}
+		return false
+	}
+	for _, lp := range []struct {
+		l    *Loop
+		f    *ssa.Function
+		name string
+	}{{lf, F, "fields"}, {lg, G, "formats"}} {
+		for _, e := range lp.l.EarlyExits() {
+			bad := false
+			for _, r := range ReturnsFrom(e[1]) {
+				if fallback(r) {
+					bad = true
+				}
+			}
+			if !bad {
+				c.Site(e[0].Instrs[len(e[0].Instrs)-1].Pos(), "the %s loop is left early only with a parsed time", lp.name)
+				continue
+			}
+			// flag-style code: accept when the edge is taken only on a successful parse
+			okGuard := false
+			for _, f := range FactsOnEdge(e[0], e[1]) {
+				if parseSucceeded(f, parse) {
+					okGuard = true
+				}
+			}
+			if okGuard {
+				c.Site(e[0].Instrs[len(e[0].Instrs)-1].Pos(), "the %s loop is left early under a successful parse", lp.name)
+			} else {
+				c.Violation("order:extractDocTime:early-fallback", e[0].Instrs[len(e[0].Instrs)-1].Pos(), "the %s loop of the time search can be left early on a path that ends with the fallback answer: a field or format that does not parse ends the search", lp.name)
+			}
+		}
+	}
+	// the fallback of extractDocTime itself is the request time
+	for _, b := range fn.Blocks {
+		ret, ok := b.Instrs[len(b.Instrs)-1].(*ssa.Return)
+		if !ok || !IsNilConst(RetOperand(ret, 1)) {
+			continue
+		}
+		if DerivesFrom(RetOperand(ret, 0), func(v ssa.Value) bool {
+			p, isP := v.(*ssa.Parameter)
+			return isP && p.Name() == "requestTime"
+		}) {
+			c.Site(ret.Pos(), "falls back to the request time")
+		} else {
+			c.Violation("prov:extractDocTime:fallback", ret.Pos(), "the fallback answer of extractDocTime is not the request time")
+		}
+	}
+}
+
+// parseSucceeded: the branch fact says a parse attempt succeeded (ok == true, or err == nil).
+func parseSucceeded(f Fact, parse Matcher) bool {
+	fromParse := func(v ssa.Value) bool {
+		return DerivesFromNoCall(v, func(x ssa.Value) bool {
+			cl, ok := x.(ssa.CallInstruction)
+			return ok && parse(cl)
+		})
+	}
+	cond, val := f.Cond, f.Val
+	if b, ok := cond.(*ssa.BinOp); ok && (b.Op == token.EQL || b.Op == token.NEQ) {
+		var other ssa.Value
+		if IsNilConst(b.Y) {
+			other = b.X
+		} else if IsNilConst(b.X) {
+			other = b.Y
+		}
+		if other != nil && fromParse(other) {
+			return (b.Op == token.EQL) == val
+		}
+		return false
+	}
+	if ph, ok := cond.(*ssa.Phi); ok {
+		for _, e := range ph.Edges {
+			if !parseSucceeded(Fact{Cond: e, Val: val}, parse) {
+				return false
+			}
+		}
+		return len(ph.Edges) > 0
+	}
+	if types.Identical(cond.Type().Underlying(), types.Typ[types.Bool]) && fromParse(cond) {
+		return val
+	}
+	return false
 }
